@@ -353,9 +353,15 @@ def run_plan(plan):
 def _run(plan, base):
     auto = bool(plan.get("auto"))
     r = rng_of(plan["seed"])
+    tier = plan.get("tier", "quick")
     if auto:
         w = _gen_world(r)
-        nsteps = r.choice([1, 2, 2, 3, 3, 4, 5])
+        nsteps = r.choice([1, 2, 2, 3, 3, 4, 5] + ([6, 7] if tier == "thorough" else []))
+        if tier == "thorough" and r.random() < 0.2:      # larger worlds in the thorough tier
+            w["nap"] = r.choice([48, 64])
+            if w.get("shank_of") is not None:
+                w["shank_of"] = world.gen_shank_of(r, w["nap"], len(set(w["shank_of"])) if len(set(w["shank_of"])) > 1 else 1)
+            w["ns"] = r.choice([8000, 12001])
         steps_in = None
     else:
         w = plan["world"]
@@ -376,7 +382,7 @@ def _run(plan, base):
         W = World(base, w, plan["seed"])      # building an already-split world runs the converter once: it may fail the property too
         i = 0
         while i < nsteps and not model["consumed"]:
-            st = _gen_step(r, nfaults, i == 0) if auto else dict(steps_in[i])
+            st = _gen_step(r, nfaults if tier != "thorough" else nfaults - 1, i == 0) if auto else dict(steps_in[i])
             i += 1
             steps_out.append(st)
             fired = _exec_step(W, st, model, log, stats, bump, plan["seed"])
@@ -441,7 +447,7 @@ def _exec_step(W, st, model, log, stats, bump, seed):
         fr = rng_of(fault["rseed"])
         only = fault.get("only")
         elig = (lambda lab: label_class(lab) == only) if only else eligible
-        fault = session.place_fault(fr, dr["events"], elig, kinds=tuple(fault.get("kinds") or ("kill", "kill", "io_error", "torn", "corrupt", "interrupt")))
+        fault = session.place_fault(fr, dr["events"], elig, kinds=tuple(fault.get("kinds") or ("kill", "kill", "io_error", "torn", "corrupt", "interrupt", "short")))
         st["fault"] = fault
     before = snapshot(W.root)
     sig_before = W.tree_sig()
@@ -450,7 +456,7 @@ def _exec_step(W, st, model, log, stats, bump, seed):
     stats["steps"] += len(res["events"])
     stats.setdefault("_step_events", []).append(res["events"])
     after = snapshot(W.root)
-    fired = res["fired"] if res["fired"] and res["fired"]["kind"] in ("kill", "torn", "io_error", "corrupt", "interrupt") else None
+    fired = res["fired"] if res["fired"] and res["fired"]["kind"] in ("kill", "torn", "io_error", "corrupt", "interrupt", "short") else None
     out = res["outcome"]
     status = out["ok"]["status"] if out and "ok" in out else None
     exc = out.get("exc") if out and "exc" in out else None
@@ -688,7 +694,7 @@ def shrink_candidates(plan):
             c["steps"] = [dict(s) for s in steps]
             c["steps"][i]["fault"] = None
             yield c
-            if f.get("kind") in ("torn", "io_error", "corrupt", "interrupt"):
+            if f.get("kind") in ("torn", "io_error", "corrupt", "interrupt", "short"):
                 c = dict(plan)
                 c["steps"] = [dict(s) for s in steps]
                 c["steps"][i]["fault"] = {"kind": "kill", "at": f["at"], "label": f["label"]}
